@@ -52,6 +52,11 @@ class Session:
                     break
             if hit is not None:
                 self.ctx.excluded_known[hit] += 1
+                dump = os.environ.get("VERIF_DUMP_KNOWN")  # maintenance aid: collect reproducers of listed findings
+                if dump and self.ctx.excluded_known[hit] <= 2:
+                    os.makedirs(dump, exist_ok=True)
+                    with open(os.path.join(dump, f"{hit}_{core.case_hash(v.sig)}_{os.getpid()}.json"), "w", encoding="utf-8") as fh:
+                        json.dump(core.to_jsonable({"property": self.prop.ID, "sig": v.sig, "detail": v.detail, "case": v.case}), fh, indent=1)
                 continue
             if any(v.sig == s for s in self.local_excl):
                 self.ctx.excluded_known["reported_this_run"] += 1
